@@ -184,6 +184,7 @@ type aworld struct {
 	identCount   map[string]int  // ident -> times submitted
 	keyCount     map[string]int  // channel/from/cno -> times submitted (any payload)
 	faulted      map[string]bool // ident -> a fault was injected into a call carrying it
+	ctxEndedAt   map[string]int  // ident -> step at which the scheduler ended that item's caller context
 	keysByChan   [][]sentKey
 	firstResult  map[string][2]uint64
 	eligibleDone []doneSeq
@@ -192,6 +193,7 @@ type aworld struct {
 	overlaps     int
 	resolved     int
 	tainted      bool
+	strictEnded  bool // APPENDSIM_STRICT_ENDED_CTX=1: treat "ended-context item appended" as a violation (witness hunting)
 	pendingViol  []pendingViolation
 
 	// C41
@@ -272,6 +274,10 @@ type op struct {
 	done      bool
 	cancel    context.CancelFunc
 	observed  bool
+	// per-item caller contexts the scheduler may end while the batch is in flight
+	// (nil = this operation's items share the caller context); scheduler-side only
+	itemCancel []context.CancelFunc
+	itemEnded  []bool
 }
 
 type stopOp struct {
@@ -527,6 +533,24 @@ func (q *aworld) noteRequestArrival(ar *appendReq) {
 	q.reqOrder = append(q.reqOrder, ar)
 	if ar.attempt != 1 && ar.attempt != 2 {
 		q.violate("append-attempt-bound", "append request %s carries attempt %d (only one bounded retry is allowed)", ar.key, ar.attempt)
+	}
+	// The writer filters items whose caller context has ended when it builds a
+	// request (activeAppendItems / the retry's appendItemError) and completes them
+	// with that error instead. A request is built and parked within one scheduler
+	// step, so a message of an item whose context the scheduler ended in an
+	// EARLIER decision was appended although the writer had seen the error.
+	for _, m := range ar.msgs {
+		id := msgIdent(ar.ch, m)
+		at, ended := q.ctxEndedAt[id]
+		if !ended || q.identCount[id] != 1 {
+			continue
+		}
+		q.r.Probe("append.item_with_ended_context_reached_appender")
+		q.r.Logf("  NOTE request %s carries %s/%s although its caller context ended at step %d, before the request was built", ar.key, m.FromUID, m.ClientMsgNo, at)
+		if q.strictEnded {
+			q.violate("ended-context-item-appended", "request %s carries %s/%s (message id %d) although the item's caller context ended at step %d, before the request was built: the writer completes that item with the context error AND appends it",
+				ar.key, m.FromUID, m.ClientMsgNo, m.MessageID, at)
+		}
 	}
 	dup := map[string]bool{}
 	for _, m := range ar.msgs {
